@@ -1,0 +1,136 @@
+//go:build verif
+
+// Contracts for package profile, checked by /verif (pverif). Comments only.
+
+package profile
+
+// ---- C01/C02: varint layer ----
+
+// vlen(x): number of bytes of the varint encoding of x; vbyte(x, k): its k-th byte.
+//@ spec func vlen(x uint64) int = ite(x >> 7 == 0, 1, ite(x >> 14 == 0, 2, ite(x >> 21 == 0, 3, ite(x >> 28 == 0, 4, ite(x >> 35 == 0, 5,
+//@     ite(x >> 42 == 0, 6, ite(x >> 49 == 0, 7, ite(x >> 56 == 0, 8, ite(x >> 63 == 0, 9, 10)))))))))
+//@ spec func vbyte(x uint64, k int) uint8 = ite((x >> (7 * k)) >= 128, uint8(x >> (7 * k)) | 0x80, uint8(x >> (7 * k)))
+
+// vval(data, n): value denoted by the first n (at most 10) bytes of data read as varint groups.
+//@ spec func vterm(data []byte, n int, k int) uint64 = ite(k < n, uint64(data[k] & 0x7f) << (7 * k), 0)
+//@ spec func vval(data []byte, n int) uint64 = vterm(data, n, 0) | vterm(data, n, 1) | vterm(data, n, 2) | vterm(data, n, 3) | vterm(data, n, 4)
+//@     | vterm(data, n, 5) | vterm(data, n, 6) | vterm(data, n, 7) | vterm(data, n, 8) | vterm(data, n, 9)
+
+//@ func encodeVarint arith bv
+//@   requires b != nil
+//@   ensures length: len(b.data) == old(len(b.data)) + vlen(x)
+//@   ensures prefix: forall j int :: 0 <= j && j < old(len(b.data)) ==> b.data[j] == old(b.data[j])
+//@   ensures bytes: forall j int :: old(len(b.data)) <= j && j < len(b.data) ==> b.data[j] == vbyte(x, j - old(len(b.data)))
+//@   loop 1
+//@     invariant 0 <= len(b.data) - old(len(b.data)) && len(b.data) - old(len(b.data)) <= 9
+//@     invariant x == old(x) >> (7 * (len(b.data) - old(len(b.data))))
+//@     invariant len(b.data) - old(len(b.data)) + 1 <= vlen(old(x))
+//@     invariant x < 128 ==> len(b.data) - old(len(b.data)) + 1 == vlen(old(x))
+//@     invariant forall j int :: 0 <= j && j < old(len(b.data)) ==> b.data[j] == old(b.data[j])
+//@     invariant forall j int :: old(len(b.data)) <= j && j < len(b.data) ==> b.data[j] == vbyte(old(x), j - old(len(b.data)))
+
+//@ func decodeVarint arith bv
+//@   ensures ok_len: result2 == nil ==> 1 <= len(data) - len(result1) && len(data) - len(result1) <= 10
+//@   ensures ok_rest: result2 == nil ==> same_elems(result1, data[len(data)-len(result1):])
+//@   ensures ok_val: result2 == nil ==> result0 == vval(data, len(data) - len(result1))
+//@   ensures ok_term: result2 == nil ==> data[len(data)-len(result1)-1] & 0x80 == 0
+//@       && forall j int :: 0 <= j && j < len(data)-len(result1)-1 ==> data[j] & 0x80 != 0
+//@   ensures err: result2 != nil ==> result0 == 0 && len(result1) == 0
+//@       && (forall j int :: 0 <= j && j < 10 && j < len(data) ==> data[j] & 0x80 != 0)
+//@   loop 1 unroll 11
+
+// Facts about the encoding, proved once and used by the round-trip lemma.
+//@ lemma vbyte_cont arith bv: forall x uint64, k int :: 0 <= k && k < vlen(x) - 1 ==> vbyte(x, k) & 0x80 != 0
+//@ lemma vbyte_last arith bv: forall x uint64 :: vbyte(x, vlen(x) - 1) & 0x80 == 0
+//@ lemma vlen_range arith bv: forall x uint64 :: 1 <= vlen(x) && vlen(x) <= 10
+//@ lemma vval_enc arith bv: forall data []byte, x uint64 ::
+//@     (forall k int :: 0 <= k && k < vlen(x) ==> data[k] == vbyte(x, k)) ==> vval(data, vlen(x)) == x
+
+// decodeVarint(encodeVarint(x) ++ tail) == (x, tail): from the two contracts.
+//@ lemma varint_roundtrip arith bv
+//@   vars b *buffer, x uint64, n0 int
+//@   assume b != nil && n0 == len(b.data)
+//@   call encodeVarint(b, x)
+//@   use vbyte_cont
+//@   use vbyte_last
+//@   use vlen_range
+//@   use vval_enc
+//@   let data := b.data[n0:]
+//@   conclude d_len: len(data) == vlen(x)
+//@   conclude d_bytes: forall k int :: 0 <= k && k < vlen(x) ==> b.data[n0+k] == vbyte(x, k) && data[k] == b.data[n0+k]
+//@   conclude d_last: data[vlen(x) - 1] & 0x80 == 0
+//@   conclude d_val: vval(data, vlen(x)) == x
+//@   call u, rest, err := decodeVarint(data)
+//@   conclude noerr: err == nil
+//@   conclude consumed: len(data) - len(rest) == vlen(x)
+//@   conclude value: u == x
+
+// ---- C01/C02: field layer ----
+
+//@ func le64 arith bv
+//@   requires len(p) >= 8
+//@   ensures value: result == uint64(p[0]) | uint64(p[1])<<8 | uint64(p[2])<<16 | uint64(p[3])<<24 | uint64(p[4])<<32 | uint64(p[5])<<40 | uint64(p[6])<<48 | uint64(p[7])<<56
+//@ func le32 arith bv
+//@   requires len(p) >= 4
+//@   ensures value: result == uint32(p[0]) | uint32(p[1])<<8 | uint32(p[2])<<16 | uint32(p[3])<<24
+
+// vcount(data): position after the first byte without continuation bit (within the first 10 bytes).
+//@ spec func vcount(data []byte) int = ite(data[0] & 0x80 == 0, 1, ite(data[1] & 0x80 == 0, 2, ite(data[2] & 0x80 == 0, 3, ite(data[3] & 0x80 == 0, 4,
+//@     ite(data[4] & 0x80 == 0, 5, ite(data[5] & 0x80 == 0, 6, ite(data[6] & 0x80 == 0, 7, ite(data[7] & 0x80 == 0, 8, ite(data[8] & 0x80 == 0, 9, 10)))))))))
+// suffix(r, d): r is the tail of d that starts len(d)-len(r) bytes in.
+//@ spec func suffix(r []byte, d []byte) bool = len(r) <= len(d) && same_elems(r, d[len(d)-len(r):])
+
+//@ func checkType arith bv
+//@   requires b != nil
+//@   ensures result == nil <==> b.typ == typ
+
+//@ func decodeField arith bv
+//@   requires b != nil
+//@   ensures progress: result1 == nil ==> len(result0) < len(data) && suffix(result0, data)
+//@   ensures wiretype: result1 == nil ==> (b.typ == 0 || b.typ == 1 || b.typ == 2 || b.typ == 5) && b.field >= 0
+//@   ensures key: result1 == nil ==> b.field == int(vval(data, vcount(data)) >> 3) && b.typ == int(vval(data, vcount(data)) & 7)
+//@   ensures payload: result1 == nil && b.typ == 2 ==> len(b.data) <= len(data) && len(b.data) + len(result0) + vcount(data) <= len(data)
+//@   ensures nopayload: result1 == nil && b.typ != 2 ==> len(b.data) == 0
+//@   ensures fixed64: result1 == nil && b.typ == 1 ==> len(data) - len(result0) == vcount(data) + 8
+//@   ensures fixed32: result1 == nil && b.typ == 5 ==> len(data) - len(result0) == vcount(data) + 4
+//@   ensures failed: result1 != nil ==> len(result0) == 0
+
+//@ func decodeInt64 arith bv
+//@   requires b != nil && x != nil
+//@   ensures result == nil <==> old(b.typ) == 0
+//@   ensures result == nil ==> *x == int64(old(b.u64))
+//@ func decodeUint64 arith bv
+//@   requires b != nil && x != nil
+//@   ensures result == nil <==> old(b.typ) == 0
+//@   ensures result == nil ==> *x == old(b.u64)
+//@ func decodeBool arith bv
+//@   requires b != nil && x != nil
+//@   ensures result == nil <==> old(b.typ) == 0
+//@   ensures result == nil ==> (*x <==> old(b.u64) != 0)
+//@ func decodeString arith bv
+//@   requires b != nil && x != nil
+//@   ensures result == nil <==> old(b.typ) == 2
+//@   ensures result == nil ==> len(*x) == len(old(b.data))
+//@ func decodeStrings arith bv
+//@   requires b != nil && x != nil
+//@   ensures result == nil <==> old(b.typ) == 2
+//@   ensures result == nil ==> len(*x) == old(len(*x)) + 1
+//@ func decodeInt64s arith bv
+//@   requires b != nil && x != nil
+//@   ensures unpacked: old(b.typ) != 2 ==> (result == nil <==> old(b.typ) == 0)
+//@   ensures unpacked_len: old(b.typ) != 2 && result == nil ==> len(*x) == old(len(*x)) + 1
+//@   loop 1
+//@     invariant len(data) >= 0
+//@     decreases len(data)
+//@ func decodeUint64s arith bv
+//@   requires b != nil && x != nil
+//@   ensures unpacked: old(b.typ) != 2 ==> (result == nil <==> old(b.typ) == 0)
+//@   ensures unpacked_len: old(b.typ) != 2 && result == nil ==> len(*x) == old(len(*x)) + 1
+//@   loop 1
+//@     invariant len(data) >= 0
+//@     decreases len(data)
+//@ func decodeMessage arith bv
+//@   requires b != nil && m != nil
+//@   loop 1
+//@     invariant len(data) >= 0
+//@     decreases len(data)
